@@ -36,7 +36,9 @@ DatePool == << <<5, D0>>, <<5, Ord(2020, 2, 29)>>, <<5, Ord(2020, 12, 31)>>, <<5
 PeriodPool == << <<6, <<2020, "A", 1>>>>, <<6, <<2020, "S", 2>>>>, <<6, <<2020, "Q", 3>>>>, <<6, <<2020, "M", 2>>>>,
                  <<6, <<2020, "W", 53>>>>, <<6, <<2020, "D", 366>>>>, <<6, <<2021, "D", 1>>>>, Null >>
 TimePool == << <<7, <<Ord(2020, 1, 1), Ord(2020, 12, 31)>>>>, <<7, <<Ord(2020, 3, 5), Ord(2020, 3, 5)>>>>,
-               <<7, <<Ord(2020, 1, 1), Ord(2020, 3, 31)>>>>, Null >>
+               <<7, <<Ord(2020, 1, 1), Ord(2020, 3, 31)>>>>, <<7, <<Ord(2020, 7, 1), Ord(2020, 12, 31)>>>>, <<7, <<Ord(2020, 2, 1), Ord(2020, 2, 29)>>>>,
+               <<7, <<Ord(2024, 12, 30), Ord(2025, 1, 5)>>>>, <<7, <<Ord(2020, 12, 28), Ord(2021, 1, 3)>>>>, <<7, <<Ord(2021, 1, 4), Ord(2021, 1, 10)>>>>,
+               <<7, <<Ord(2020, 1, 2), Ord(2020, 3, 31)>>>>, Null >>
 DurPool == << <<8, "A">>, <<8, "Q">>, <<8, "D">>, Null >>
 Pool(t) == CASE t = "String" -> StrPool [] t = "Number" -> NumPool [] t = "Integer" -> IntPool [] t = "Boolean" -> BoolPool
              [] t = "Date" -> DatePool [] t = "Time_Period" -> PeriodPool [] t = "Time" -> TimePool [] t = "Duration" -> DurPool
@@ -62,6 +64,7 @@ Emit(a) ==
                               src |-> IF from = "String" THEN (IF Has(x, "null") THEN Null ELSE <<4, x.text>>) ELSE x,
                               exp |-> Cast(x, from, to),
                               accepted |-> CastAccepted(from, to),
+                              beyond |-> IF from # "String" /\ Beyond(from, to) THEN CastBeyondTable(x, from, to) ELSE Undet,
                               name |-> IF CastAccepted(from, to) THEN MeasureName("Me_1", from, to) ELSE "-"]))
 Next == i <= Len(TypeSeq) /\ Emit(i) /\ i' = i + 1
 \* sanity: every accepted pair yields a non-error for at least one pool value; identity casts are the identity
